@@ -13,6 +13,8 @@ It is the *other side* of the real nfcpy drivers: every frame the driver writes 
 says what the k-th host command counted from mark() returns instead:
 
     ["status", s]          the response carries only the status byte s (commands with a status field)
+    ["status+data", s]     status byte s followed by the octets that follow the status in the regular response (what
+                           the chip's buffer holds; STALE_OCTETS where the regular response has nothing behind it)
     ["fault", name]        a host-link fault, one of FAULTS_FRAME / FAULTS_CCID
     ["fault", name, n]     a host-link fault with a length, one of FAULTS_LEN_FRAME / FAULTS_LEN_CCID: the transfer
                            named is cut to its first n octets (every n the transfer allows, see len_actions())
@@ -113,6 +115,17 @@ FAULTS_LEN_CCID = [
 SURPLUS_LENGTHS = (1, 2, 5)
 
 
+STALE_OCTETS = bytes.fromhex("5a0fc33c69")      # buffer content behind an error status where the regular response has none
+
+
+def status_payload(act, regular):
+    """response payload for ["status", s] / ["status+data", s] (s != 0) given the regular payload 00 || data"""
+    s = bytes([act[1] & 0xFF])
+    if act[0] == "status":
+        return s
+    return s + (bytes(regular[1:]) or STALE_OCTETS)
+
+
 def surplus_octets(n):
     return bytes((0xA5 + 17 * i) & 0xFF for i in range(n))
 
@@ -191,6 +204,10 @@ class Field(object):
         self.muted = False                               # tag does not answer (-> status 01 time-out)
         self.tt3_active = False                          # FeliCa listen through the CIU: first command delivered
         self.big_rsp = 258                               # length of the long answer to a long READ BINARY
+        self.air = []                                    # chip as initiator: every transmission as (path, octets the
+                                                         # host supplied for it, CRC appended by the chip) (bounded)
+        self.air_script = []                             # per transmission, first come first served: "mute" (the tag
+                                                         # does not hear it) | "badcrc" (answer with a broken CRC) | None
         self.__dict__.update(kw)
         if kind.startswith("rdr-") or kind.startswith("ini-"):
             self.queue = list(self.script_for(kind))
@@ -212,6 +229,15 @@ class Field(object):
     def log_tx(self, data):
         if len(self.sent) < 64:
             self.sent.append(bytes(data))
+
+    def log_air(self, path, octets, hwcrc):
+        """path: "ciu" (octet-wise through the CIU registers) | "thru" (InCommunicateThru) | "dx" (InDataExchange)"""
+        if len(self.air) < 64:
+            self.air.append((path, bytes(octets), bool(hwcrc)))
+
+    def air_event(self):
+        """what happens to the transmission that is on air now"""
+        return self.air_script.pop(0) if self.air_script else None
 
     # ---- chip is initiator -------------------------------------------------------------------
     def poll(self, variant, brty, idata):
@@ -304,7 +330,22 @@ class Field(object):
         if c == 0x02 and len(data) == 14:
             b = data[1]
             return bytes([b]) + bytes(self.mem[b * 8 % 512:b * 8 % 512 + 8])
+        if c in (0x54, 0x1B) and len(data) == 14:
+            b = data[1]
+            o = b * 8 % 512
+            new = bytes(data[2:10]) if c == 0x54 else bytes(x | y for x, y in zip(self.mem[o:o + 8], data[2:10]))
+            self.mem[o:o + 8] = new
+            return bytes([b]) + new
         return None
+
+    T1_LEN = {0x78: 7, 0x00: 7, 0x01: 7, 0x53: 7, 0x1A: 7, 0x02: 14, 0x54: 14, 0x1B: 14, 0x10: 14}
+
+    @classmethod
+    def t1_wellformed(cls, frame):
+        """a Type 1 Tag command as it must be on air: command code, operands and UID echo of the fixed length the
+        Topaz command set gives the code, followed by the CRC_B over exactly those octets"""
+        frame = bytes(frame)
+        return len(frame) >= 3 and cls.T1_LEN.get(frame[0]) == len(frame) - 2 and refcrc.check_crc_b(frame)
 
     # ---- chip is target ------------------------------------------------------------------------
     def activation(self, variant, mode):
@@ -469,9 +510,13 @@ class ChipsetSim(object):
             self.applied.append((k, list(act), cmd))
             act = None
         payload = self.execute(cmd, params)
-        if act is not None and act[0] == "status":
-            if self.has_status(cmd):
+        if act is not None and act[0] in ("status", "status+data"):
+            if self.has_status(cmd) and isinstance(payload, bytes) and payload:
                 if act[1] & 0xFF:                  # status 00h is success: the normal response stays
+                    payload = status_payload(act, payload)
+                self.applied.append((k, list(act), cmd))
+            elif self.has_status(cmd) and act[0] == "status":
+                if act[1] & 0xFF:
                     payload = bytes([act[1] & 0xFF])
                 self.applied.append((k, list(act), cmd))
             else:
@@ -603,9 +648,13 @@ class ChipsetSim(object):
             self.q = list(self.responder(cmd, params))
             return
         payload = self.execute(cmd, params)
-        if act is not None and act[0] == "status":
-            if self.has_status(cmd):
+        if act is not None and act[0] in ("status", "status+data"):
+            if self.has_status(cmd) and isinstance(payload, bytes) and payload:
                 if act[1] & 0xFF:                  # status 00h is success: the normal response stays
+                    payload = status_payload(act, payload)
+                self.applied.append((k, list(act), cmd))
+            elif self.has_status(cmd) and act[0] == "status":
+                if act[1] & 0xFF:
                     payload = bytes([act[1] & 0xFF])
                 self.applied.append((k, list(act), cmd))
             else:
@@ -749,13 +798,24 @@ class ChipsetSim(object):
         if cmd == 0x40:
             if not p:
                 return "syntax"
+            fld.log_air("dx", p[1:], True)
+            ev = fld.air_event()
             r = fld.exchange(p[1:])
+            if ev == "mute":
+                return b"\x01"
+            if ev == "badcrc" and r is not None:
+                return b"\x02"                                           # the firmware checks the CRC of the answer
             return (b"\x00" + r) if r is not None else b"\x01"
         if cmd == 0x42:
             # 106 kbps Type A framing: the CIU appends CRC_A to what it transmits while CIU_TxMode.TxCRCEn (bit 7) is
             # set, and verifies + strips CRC_A of what it receives while CIU_RxMode.RxCRCEn (bit 7) is set; with
             # the bit clear the octets go to / come from the air as they are.
             typea = fld.kind in ("t2t", "t4a")
+            fld.log_air("thru", p, st.regs.get(R_TXMODE, 0x80) & 0x80)
+            ev = fld.air_event()
+            if ev == "mute":
+                fld.log_tx(p)
+                return b"\x01"
             if typea and not st.regs.get(R_TXMODE, 0x80) & 0x80:
                 if len(p) < 3 or not refcrc.check_crc_a(p):
                     fld.log_tx(p)
@@ -769,12 +829,18 @@ class ChipsetSim(object):
                     air = bytes(r)                                       # the octets on air as the monitor chose them
                 else:
                     air = refcrc.append_crc_a(r) if len(r) > 1 else r    # the 4 bit ACK/NAK carries no CRC
+                if ev == "badcrc":
+                    if len(air) < 3:
+                        return b"\x02"
+                    air = air[:-1] + bytes([air[-1] ^ 0x01])
                 if st.regs.get(R_RXMODE, 0x80) & 0x80:
                     if len(air) < 3 or not refcrc.check_crc_a(air):
                         return b"\x02"                                   # "a CRC error has been detected by the CIU"
                     r = air[:-2]
                 else:
                     r = air                                              # RxCRCEn off: the CRC bytes stay in the data
+            elif ev == "badcrc":
+                return b"\x02"
             return b"\x00" + r
         if cmd in (0x44, 0x52, 0x54, 0x4E, 0x60):
             return b"\x00"
@@ -868,16 +934,20 @@ class ChipsetSim(object):
             # Type 1 Tag command sent byte by byte through the CIU: command + CRC_B in the transmit FIFO
             tx = bytes(st.txfifo)
             st.txfifo = bytearray()
-            if len(tx) >= 3 and refcrc.check_crc_b(tx):
+            fld.log_air("ciu", tx, False)
+            ev = fld.air_event()
+            if fld.t1_wellformed(tx):
                 self.crc_b_tx[0] += 1
-                r = fld.t1_exchange(tx[:-2])
+                r = fld.t1_exchange(tx[:-2]) if ev != "mute" else None
             else:
-                self.crc_b_tx[1] += 1
+                self.crc_b_tx[1] += 1                # no tag answers a frame that is not command || CRC_B(command)
                 r = None
-            if fld.rsp_override is not None:
+            if fld.rsp_override is not None and ev != "mute":
                 raw = bytes(fld.rsp_override)
             else:
                 raw = refcrc.append_crc_b(r) if r is not None else None
+            if ev == "badcrc" and raw is not None:
+                raw = raw[:-1] + bytes([raw[-1] ^ 0x01])
             st.fifo = bytearray(pack_with_parity(raw)) if raw is not None and not fld.muted else bytearray()
             return
         if fld.kind == "rdr-tt3":
@@ -1299,6 +1369,14 @@ def selftest():
     sim.host_write(CMD("02"))
     assert sim.bad_writes and sim.bad_writes[0][0] == "arygon-prefix"
     n += 1
+    # Type 1 Tag command frames: fixed length by command code, CRC_B over exactly the command (Topaz command set)
+    read8 = h("02030000000000000000b2565400")
+    assert Field.t1_wellformed(refcrc.append_crc_b(read8)) and Field.t1_wellformed(h("78000000000000") + h("d0 43"))
+    assert not Field.t1_wellformed(refcrc.append_crc_b(refcrc.append_crc_b(read8)))     # CRC of command || CRC
+    assert not Field.t1_wellformed(read8) and not Field.t1_wellformed(refcrc.append_crc_b(read8[:7]))
+    assert status_payload(["status", 0x40], b"\x00abc") == b"\x40" and status_payload(["status+data", 0x40], b"\x00abc") == b"\x40abc"
+    assert status_payload(["status+data", 0x13], b"\x00") == b"\x13" + STALE_OCTETS
+    n += 6
     # parity packing: 9 bits per byte, LSB first
     assert pack_with_parity(b"\x00") == b"\x00\x01" and pack_with_parity(b"\xff\x01") == bytes([0xFF, 0x03, 0x00])
     n += 2
